@@ -73,6 +73,26 @@ Carry(P, mv, extra, ru) ==
          IN IF early \/ O2 = {} THEN NoOldRec(Q) ELSE Q
 
 (***************************************************************************)
+(* C07: carry() interrupted by a panic in the user's Hash: the elements    *)
+(* `done` were moved completely; `victim` had already been taken out of    *)
+(* the old table (cursor.next + old.remove) when its hash panicked, so it  *)
+(* is dropped by the unwinding.  The loop is left by the panic: an old     *)
+(* table emptied this way is *not* freed.                                  *)
+(***************************************************************************)
+CarryFaultSets(P) ==
+    {<<d, v>> \in (SUBSET P.cur) \X P.cur :
+        /\ v \notin d
+        /\ Cardinality(d) < Min(R, Min(P.cN, Cardinality(P.cur)))}
+CarryFault(P, done, victim, ru) ==
+    LET n == Cardinality(done)
+        T == HB!Tbl(P.mB, Cardinality(P.M), P.mG)
+    IN
+    IF ~HB!InsNoGrowNOK(T, n, ru) THEN [P EXCEPT !.err = "insert_no_grow_full"]
+    ELSE LET T2 == HB!InsNoGrowN(T, n, ru) IN
+         [P EXCEPT !.M = P.M \cup Pick(P.O, done), !.mG = T2.g, !.O = Drop(P.O, done \cup {victim}),
+                   !.cur = P.cur \ (done \cup {victim}), !.cN = P.cN - n - 1]
+
+(***************************************************************************)
 (* HashMap::insert(k, v)                                                   *)
 (***************************************************************************)
 GrowWant(i, extra) == i + CeilDiv(i, R) + Max(extra, CeilDiv(i, R))
@@ -113,6 +133,19 @@ OverwriteOld_Post(k, v, mv, ru) ==
     Carry([St EXCEPT !.O = Drop(O, {k}) \cup {<<k, v>>}], mv, 0, ru)
 OverwriteOld_En(k, v, mv, ru) ==
     /\ Ok /\ k \in KeysOf(O) /\ mv \in CarrySets(St) /\ ru <= Min(HB!Lost(Main), Cardinality(mv))
+
+\* the same calls interrupted by a Hash panic during their carry (C07)
+F_InsertNew_Post(k, v, done, victim) ==
+    IF mG = 0
+    THEN LET G == Grown(St, 1) IN CarryFault([G EXCEPT !.M = {<<k, v>>}, !.mG = G.mG - 1], done, victim, 0)
+    ELSE CarryFault([St EXCEPT !.M = M \cup {<<k, v>>}, !.mG = mG - 1], done, victim, 0)
+F_InsertNew_En(k, v, done, victim) ==
+    /\ Ok /\ k \notin KeysOf(All)
+    /\ IF mG = 0 THEN (~oP /\ M # {} /\ GrowB(mI, 1) # HB!Overflow /\ <<done, victim>> \in CarryFaultSets(Grown(St, 1)))
+       ELSE (oP /\ <<done, victim>> \in CarryFaultSets(St))
+F_OverwriteOld_Post(k, v, done, victim) ==
+    CarryFault([St EXCEPT !.O = Drop(O, {k}) \cup {<<k, v>>}], done, victim, 0)
+F_OverwriteOld_En(k, v, done, victim) == Ok /\ k \in KeysOf(O) /\ <<done, victim>> \in CarryFaultSets(St)
 
 (***************************************************************************)
 (* removal paths                                                           *)
@@ -159,6 +192,16 @@ Reserve_Post(n, ru) ==
              P1 == NoOldRec(WithMain(St, T1, All))           \* carry_all()
          IN IF p = "overflow" THEN P1 ELSE Grown(P1, n)
 Reserve_En(n, ru) == Ok /\ ru <= (IF oP /\ ReservePath(n) = "grow" THEN Min(cN, HB!Lost(Main)) ELSE 0)
+
+\* reserve's carry_all() interrupted by a Hash panic: `done` moved (growing inserts), `victim` lost,
+\* the rest stays in the old table, no new table is installed
+F_Reserve_Post(done, victim) ==
+    LET T1 == HB!InsGrowNR(Main, Cardinality(done), 0) IN
+    [St EXCEPT !.M = M \cup Pick(O, done), !.mB = T1.b, !.mG = T1.g, !.O = Drop(O, done \cup {victim}),
+               !.cur = cur \ (done \cup {victim}), !.cN = cN - Cardinality(done) - 1]
+F_Reserve_En(n, done, victim) ==
+    /\ Ok /\ oP /\ ReservePath(n) = "grow"
+    /\ done \subseteq cur /\ victim \in cur \ done /\ cN = Cardinality(cur)
 
 ShrinkNeed == mI + (IF oP THEN oI + CeilDiv(oI, R) ELSE 0)
 ShrinkTo_Post(m) ==
